@@ -251,7 +251,10 @@ var advTemplates = []advTemplate{
 		return `local src = ("x = 1 "):rep(` + []string{"10", "1e3", "1e4"}[g.Choose(3)] + `) .. " = " ` + liveLoop(`load(src)`)
 	}},
 	{"live:load-function-reader", func(g *core.Tape) string {
-		return liveLoop(`local k = 0 load(function() k = k + 1 if k < 20 then return "local a = 1 " end end)`)
+		// the pieces handed over by the reader are charged while they are put together and given back
+		// once the chunk is compiled: once, not twice
+		piece := []string{`"local a = 1 "`, `"--" .. ("x"):rep(2000) .. "\n"`, `"--" .. ("x"):rep(20000) .. "\n"`}[g.Choose(3)]
+		return `local piece = ` + piece + ` ` + liveLoop(`local k = 0 load(function() k = k + 1 if k < 20 then return piece end end)`)
 	}},
 	{"live:pcall-error", func(g *core.Tape) string {
 		return liveLoop(`pcall(error, {}) pcall(string.rep) pcall(select, -1)`)
